@@ -90,6 +90,9 @@ def run(ctx):
     ctx.level = "model_checking"
     ctx.assumptions += [
         "1 tick = 150 ms, W = proxy.shutdownwait = 4 ticks = 600 ms, slack = 2 s: Shutdown must return within 2.6 s; short work = 150 ms (4x below W), long = 6 s (10x above), never-ending work ends with the scenario",
+        "work that ends just within the wait ('edge'): scenarios that carry it run with 1 tick = 500 ms (W = 2 s); the work ends at the absolute moment shutdown start + W - 75 ms; it must complete; an incomplete item is a violation only if the client saw it end earlier than W - 25 ms after the start (a later cut may be the deadline itself), otherwise it is counted as skipped",
+        "stalled connections ('stall'): the client connects and sends nothing, or half of a real TLS ClientHello (TLS-terminating kinds), 30 ms before Shutdown is called; nothing is asserted about them except that they do not delay the return",
+        "besides the served-connection probe at +100 ms, a plain TCP connect at W/2 and at 0.9 W after the start must be refused for every listener (every listener of fabio closes its socket first; being accepted and dropped later is only tolerated at +100 ms)",
         "one listener per kind in a configuration ({http, https, tcp, tcp+sni, grpc, https+tcp+sni}; 'k~2' = a second listener on the same port of 127.0.0.2), <=2 work items per listener, all in flight (first answer bytes received by the client; for a half-closed tunnel: the upstream has seen the client's EOF) before Shutdown is called",
         "when Shutdown has returned the harness closes every server, as the process exit does in fabio's main: work a listener was not waited for is cut there",
         "a short item is asserted to complete only if its server side ended within W/2 of the shutdown start by the harness's own clock (a slower machine gives no verdict on that item; counted as skipped)",
@@ -104,7 +107,11 @@ def run(ctx):
     sink = os.path.join(ctx.tmp, "c18.gen")
     sink2 = os.path.join(ctx.tmp, "c18.sim")
     sink3 = os.path.join(ctx.tmp, "c18.twins")
+    sink4 = os.path.join(ctx.tmp, "c18.edge")
+    sink5 = os.path.join(ctx.tmp, "c18.simedge")
     jobs = [
+        ("gen_edge", dict(cfg_text=cfg(spec="GenSpec", ms=2, st=1, do="MCDurOrderEdge"), json_sink=sink4, workers=4, timeout=ctx.pick(300, 1500))),
+        ("sim_edge", dict(cfg_text=cfg(spec="GenSpec", ms=7, st=1, do="MCDurOrderEdge"), json_sink=sink5, simulate=ctx.pick(600, 4000), depth=80, seed=ctx.seed, timeout=600)),
         ("gen", dict(cfg_text=cfg(spec="GenSpec", ms=2, st=ctx.pick(1, 2)), json_sink=sink, workers=4, timeout=ctx.pick(300, 1500), coverage=ctx.thorough)),
         ("gen_twins", dict(cfg_text=cfg(spec="GenSpec", ms=2, st=1, ko="MCKindOrderTwins"), json_sink=sink3, workers=4, timeout=ctx.pick(300, 1500))),
         ("sim", dict(cfg_text=cfg(spec="GenSpec", ms=6, st=2), json_sink=sink2, simulate=ctx.pick(400, 4000), depth=80, seed=ctx.seed, timeout=600)),
@@ -137,13 +144,13 @@ def run(ctx):
             if r.violated != "BoundedReturn":
                 ctx.inconclusive("model self-test: GrpcIgnoresDeadline=TRUE should violate BoundedReturn, got %r %r" % (r.violated, r.error))
                 return
-        elif name == "sim":
+        elif name in ("sim", "sim_edge"):
             if r.error or r.violated or r.timed_out:
                 ctx.need_tlc_ok(r, "Shutdown simulation")
                 return
         elif not ctx.need_tlc_ok(r, "Shutdown " + name):
             return
-        ctx.cover(name, states=r.distinct if name != "sim" else 0, transitions=r.generated)
+        ctx.cover(name, states=r.distinct if not name.startswith("sim") else 0, transitions=r.generated)
     if ctx.thorough and set(results["gen"].coverage0) & set(ACTIONS):
         ctx.inconclusive("actions never taken: %s" % sorted(set(results["gen"].coverage0) & set(ACTIONS)))
         return
@@ -160,6 +167,31 @@ def run(ctx):
     mute = [s for s in small if any(i["dur"] == "mute" for i in s["items"])]
     chosen = (stratified(small, ctx.pick(14, 220), rnd) + stratified(big, ctx.pick(3, 40), rnd) + stratified(idle, ctx.pick(3, 18), rnd)
               + stratified(mute, ctx.pick(2, 12), rnd) + stratified(twins, ctx.pick(3, 24), rnd))
+    # (d) work that ends just within the wait, on every kind; (e) connections that never get as far as a
+    # request (silent, or stuck in the middle of the TLS ClientHello), on every kind -- fewest scenarios
+    # that cover all kinds first, then a stratified slice
+    allkinds = ["http", "https", "tcp", "tcp+sni", "grpc", "https+tcp+sni", "tcp+tls"]
+    edgy = sorted(read(sink4) + read(sink5), key=lambda x: json.dumps(x, sort_keys=True))
+    rnd.shuffle(edgy)
+
+    def cover_kinds(dur, need_at_start):
+        todo, out = set(allkinds), []
+        while todo:
+            def gain(sc):
+                return len({i["srv"] for i in sc["items"] if i["dur"] == dur and (not need_at_start or i["at"] == sc["tstart"])} & todo)
+            best = max(edgy, key=gain, default=None)
+            if best is None or gain(best) == 0:
+                break
+            out.append(best)
+            todo -= {i["srv"] for i in best["items"] if i["dur"] == dur}
+        return out, todo
+    edge_cover, edge_missing = cover_kinds("edge", True)
+    stall_cover, stall_missing = cover_kinds("stall", False)
+    if edge_missing or stall_missing:
+        ctx.inconclusive("the generator produced no edge / stalled-connection work for %s" % sorted(edge_missing | stall_missing))
+        return
+    small_edge = [s for s in read(sink4) if s["items"]]
+    chosen += edge_cover + stall_cover + stratified(small_edge, ctx.pick(2, 40), rnd)
     if not idle or not mute or not twins:
         ctx.inconclusive("the generator produced no idle-listener / half-closed-tunnel / shared-port scenario")
         return
